@@ -380,20 +380,8 @@ def is_falsy_decl(t) -> bool:
 
 
 def classify_recv(spec, p, want, got):
-    """narrow predicates for the known findings (a mismatch of any other shape stays a violation)."""
-    d = declared(spec, p)
-    if not is_product_param(spec, p):
-        toks = decl_leaves(d)
-        if d[0] != "leaf" and toks and all(t[0] == "v" or t[0] == "n" for t in toks) and any(t[0] == "n" for t in toks):
-            if got == enc(d, leaf=lambda l: raw_obj(l[1])):
-                return "F70"
-    else:
-        if spec.get("produces") is not None and not is_falsy_decl(spec["produces"]) and spec.get("ret") is None:
-            src = p["default"]
-            if p["name"] not in dict((n, t) for n, t in spec["kwargs"]) and src is not None and got == enc(src, leaf=lambda l: raw_obj(l[1])):
-                return "F71"
-        if is_falsy_decl(d) and got == "*NYNone":
-            return "F72"
+    """No finding of this property is `known` any more (F70, F71, F72 are fixed in /repo: 594c921, 2e11e34, 123c420; their
+    witnesses live in corpus/C07 and must pass), so every mismatch is a violation."""
     return None
 
 
@@ -409,9 +397,7 @@ def oracle(spec, o):
         return bad
     name = spec["name"]
     if not o["collected"] or o["recv"] is None:
-        # F71 can also make a call impossible (a product parameter without default loses its value): classified below
-        lost = [p["name"] for p in spec["params"] if is_product_param(spec, p) and p["default"] is None]
-        finding = "F71" if (spec.get("produces") is not None and not is_falsy_decl(spec["produces"]) and lost and o["collected"]) else None
+        finding = None
         bad.append(("kwargs", f"task {name} with a well-formed declaration did not run its body (collected={o['collected']}, outcome={o['outcome']}, exc={o['exc']})", finding))
         return bad
     want = expected_recv(spec)
@@ -683,7 +669,7 @@ def gen_task(rng, name, special=None):
     if want_ret:
         rt = gen_decl_tree(rng, names, "ppkc", depth=2, leaf_p=0.35, nonempty=True)
         has_prod_param = any(is_product_param(spec, p) for p in spec["params"])
-        if special == "F71" or rng.random() < (0.05 if has_prod_param else 0.5):
+        if special == "F71" or rng.random() < 0.45:
             spec["produces"] = rt
         else:
             spec["ret"] = rt
@@ -703,23 +689,19 @@ def gen_task(rng, name, special=None):
     return spec
 
 
-CORPUS = [
-    # F70: explicit un-hashed PythonNode inside a container of plain values
-    {"name": "c70", "params": [{"name": "x", "default": ["dict", [["a", ["leaf", "n1"]], ["b", ["leaf", "v2"]]]], "annot": None, "product": False}],
-     "kwargs": [], "ret": None, "produces": None, "out": None, "sentinel": False},
-    # F71: @task(produces=…) next to product parameters
-    {"name": "c71", "params": [{"name": "path", "default": ["leaf", "pc71_a"], "annot": None, "product": True},
-                               {"name": "produces", "default": ["leaf", "pc71_b"], "annot": None, "product": False}],
-     "kwargs": [], "ret": None, "produces": ["leaf", "pc71_r"], "out": ["leaf", "sr"], "sentinel": False},
-    # F72: an empty container declared as product
-    {"name": "c72", "params": [{"name": "produces", "default": ["list", []], "annot": None, "product": False}],
-     "kwargs": [], "ret": None, "produces": None, "out": None, "sentinel": False},
-]
+def corpus():
+    """witnesses of the repaired findings F70, F71, F72 (corpus/C07/*.json): run first, must pass."""
+    out = []
+    for f in sorted((common.VERIF / "corpus" / "C07").glob("*.json")):
+        obj = json.loads(f.read_text())
+        if obj.get("layer") == "e2e":
+            out.append(obj["spec"])
+    return out
 
 
 def projects(ctx):
     rng = ctx.rng
-    projs = [[c] for c in CORPUS]
+    projs = [[c] for c in corpus()]
     nproj = ctx.scale(70, 700)
     tid = 0
     for _ in range(nproj):
@@ -727,7 +709,7 @@ def projects(ctx):
         for _ in range(6):
             tid += 1
             r = rng.random()
-            special = "F70" if r < 0.04 else "F71" if r < 0.08 else "F72" if r < 0.11 else None
+            special = "F70" if r < 0.06 else "F71" if r < 0.12 else "F72" if r < 0.16 else None
             specs.append(gen_task(rng, f"t{tid}", special))
         projs.append(specs)
     for _ in range(ctx.scale(6, 40)):
